@@ -6,5 +6,7 @@ CONSTANTS
   Part = "both"
   ListStyle = "versioned"
   Chains = FALSE
+  Configs = {"default"}
+  SampleConfigs = {"stem", "ext", "both"}
 INVARIANT Emit
 CHECK_DEADLOCK FALSE
